@@ -5,6 +5,10 @@ From Coq Require Import List ZArith Bool.
 From Coq Require Import Permutation.
 From RtoscV Require ArgVal.AvModel.
 From RtoscV Require Import Save.TopoModel Save.SaveModel Save.SaveProofs Save.RoundProofs Save.RoundFull Save.PermApp Save.SortStage Save.EqStage Save.SaveRegress.
+From RtoscV Require Import Ports.WalkModel Ports.DispatchModel Ports.TreeProofs Ports.DispatchWalk Ports.NamesModel.
+From RtoscV Require Import Save.TreeApp Save.DispatchStage Save.TreeStage Save.WalkStage Save.TreePipeline.
+From RtoscV Require Pretty.Tok Pretty.PrintModel Pretty.ScanModel Pretty.RunProofs Pretty.ListProofs.
+From RtoscV Require Import Save.PrintStage Save.PrintLines Save.PipelineReal.
 Import ListNotations.
 Local Open Scope Z_scope.
 
@@ -204,3 +208,277 @@ Theorem C12_rself_walker_offset_before_fix_refuted :
   old_end_before_fix false [47; 113; 47] [108; 101; 118; 101; 108] = Some [101; 108] /\
   old_end_before_fix false [47; 113; 47] [111; 110] = None.
 Proof. exact rself_walker_offset_before_fix_refuted. Qed.
+
+(* ======================================================================== *)
+(* Stage 5: the dispatch stage instantiated (C04 + C14)                        *)
+(* ======================================================================== *)
+(* Port trees [t : list pt] (Save/TreeApp.v): parameter leaves made by the macros C14
+   models (rParam rParamI rParamF rToggle rOption rString, rArrayI/F/T/Option "name#N"),
+   sub-tree ports of one component - embedded (rRecur), enumerated (rRecurs "name#N/"),
+   pointer (rRecurp, the object exists while a toggle of the parent table is on) -,
+   optionally "enabled by" a toggle of the parent table.  [app_of_tree t] is the abstract
+   application: one port per leaf under every expansion of the sub-trees above it.
+
+   The callback of a leaf (C14's model of the macro, SugarModel.step) stores exactly
+   what SaveModel.store says - clamp(v) (rLIMIT = clampK: the core of C14_clamp; for
+   char-sized variables after the wrap to 8 bits), the number of the first "map" entry
+   for a symbol, a string cut to the declared length (C14_string_trunc) - in the element
+   the address names (boils_idx).  [leaf_wf]: kind and '#N' as the macros combine them,
+   rString with length >= 1, float bounds that are no NaN; [arg_wf]: a float argument
+   that is no NaN, a string argument without NUL. *)
+Theorem C12_callback_stores : forall nm arr d path loc msg v v' old j,
+  leaf_wf arr d -> arg_wf v ->
+  store (leaf_port path arr d) v = Some v' ->
+  length old = p_len (leaf_port path arr d) -> (j < length old)%nat ->
+  match arr with Some _ => Z.to_nat (SM.boils_idx (cenv nm arr d) msg) = j | None => j = O end ->
+  exists zs o,
+    SM.step (ckind (ld_kind d) (is_some arr)) (cenv nm arr d) loc msg (enc_field (ld_kind d) old) [enc_arg v]
+      = Some (zs, o) /\
+    dec_elem (ld_kind d) zs j = Some v'.
+Proof. exact cb_store. Qed.
+
+(* One parameter message - the address of element k of port i, one argument the port's
+   specification accepts - dispatched at the root of the tree (C04's model of
+   Ports::dispatch with a location buffer; [tree_dispatch] runs the callbacks it logs in
+   order: sub-tree ports descend, a pointer sub-tree only while its switch is on, the
+   leaf runs its macro's callback on the state's entry for its address) does exactly
+   what SaveModel.set_elem does: the value lands in that element of that port and in no
+   other, after the callback's clamping; no match when a pointer on the way is NULL.
+   From C04_exactly_one_leaf (the callbacks are the chain along the leaf's index path,
+   each loc the address so far) through C09's reaches_addressed.
+   Side conditions: names of the macro shape, siblings not clashing ([names_ok], decidable);
+   C04's [tree_ok] (holds for every tree whose tables are served by the linear scan:
+   tree_ok_nohash); distinct addresses; a state with one value per element ([shaped]:
+   kept by every accepted message, shaped_set_elem). *)
+Theorem C12_dispatch_elem : forall hp tid (t : list pt),
+  names_ok (sports_of t) = true -> tree_ok (to_tree hp tid (sports_of t)) ->
+  Forall pt_wf t -> NoDup (map p_path (app_of_tree t)) ->
+  forall i k v s,
+    (i < length (app_of_tree t))%nat -> (k < p_len (port_at (app_of_tree t) i))%nat ->
+    p_nodef (port_at (app_of_tree t) i) = false ->
+    arg_wf v -> store (port_at (app_of_tree t) i) v <> None -> shaped (app_of_tree t) s ->
+    tree_dispatch hp tid t (elem_addr (port_at (app_of_tree t) i) k) v s
+    = set_elem (app_of_tree t) s i k v.
+Proof. exact dispatch_elem. Qed.
+
+(* The lines of the saved file, in any order, handed to the tree from a default-initialised
+   instance (an array line element by element): the run is apply_all's - the former
+   premise "C04 + C14" for every run the pipeline makes. *)
+Theorem C12_dispatch_stage : forall hp tid (t : list pt) st,
+  names_ok (sports_of t) = true -> tree_ok (to_tree hp tid (sports_of t)) -> Forall pt_wf t ->
+  full_conditions (app_of_tree t) st -> comparable (app_of_tree t) st -> cstrings st ->
+  forall ls, (forall l, In l ls -> In l (save_lines (app_of_tree t) st)) ->
+    real_apply (fun _ l s => tree_apply_line hp tid t l s) (app_of_tree t) ls (initial (app_of_tree t))
+    = real_apply (fun a l s => apply_line a l s) (app_of_tree t) ls (initial (app_of_tree t)).
+Proof. exact dispatch_stage. Qed.
+
+(* C12_roundtrip through the pipeline for the application of a port tree; loading hands
+   the sorted lines to Ports::dispatch on the tree.  _partial: the stages still assumed
+   are the walk (C09: reaches exactly the live ports) and print/scan (C10: a printed body
+   scans back line by line); beside them [full_conditions], [comparable] (no NaN),
+   [cstrings] (strings without NUL), [declared] (decidable, C13_declared_computed) and an
+   acyclic dependency scan. *)
+Theorem C12_roundtrip_pipeline_tree_partial :
+  forall text walk print_lines scan_text hp tid (t : list pt) apropos fuel F st ps,
+    let a := app_of_tree t in
+    names_ok (sports_of t) = true -> tree_ok (to_tree hp tid (sports_of t)) -> Forall pt_wf t ->
+    stage_hypotheses2 text walk print_lines scan_text a st ->
+    full_conditions a st -> comparable a st -> cstrings st ->
+    declared a apropos ->
+    pushes line apropos fuel (msgs (save_lines a st)) = Some ps -> ranked ps ->
+    exists fin,
+      real_load text scan_text (fun _ l s => tree_apply_line hp tid t l s)
+                (fun _ ls => sort_by_load_order apropos fuel ls) a
+                (real_save text walk (av_eq_real F) print_lines a st) (initial a)
+      = Some (Z.of_nat (length (save_lines a st)), fin) /\
+      forall q, (q < length a)%nat -> p_nodef (port_at a q) = false -> live a st q = true ->
+                restored_val (port_at a q) (val_at st q) (val_at fin q).
+Proof. exact roundtrip_pipeline_tree. Qed.
+
+(* { rToggle(e), rRecurp(s) -> { rParamI(x) } existing while e is on, rArrayI(t, 3) }: the
+   hypotheses hold; the saved lines handed to the tree with the switch first restore the
+   state, the line below the sub-tree in front of its switch reaches no port. *)
+Theorem C12_pipeline_tree_nonvacuous :
+  let a := app_of_tree fx_tree in
+  names_ok (sports_of fx_tree) = true /\
+  tree_ok (to_tree no_hash_search one_id (sports_of fx_tree)) /\ Forall pt_wf fx_tree /\
+  full_conditions a fx_state /\ comparable a fx_state /\ cstrings fx_state /\
+  declared a apropos_fx /\
+  (exists ps, pushes line apropos_fx 20 (msgs (save_lines a fx_state)) = Some ps /\ ranked ps) /\
+  real_apply (fun _ l s => tree_apply_line no_hash_search one_id fx_tree l s) a
+             (map (the_line a fx_state) [0; 2; 1]%nat) (initial a) = (fx_state, true) /\
+  tree_apply_line no_hash_search one_id fx_tree (the_line a fx_state 1) (initial a) = None.
+Proof. exact pipeline_tree_nonvacuous. Qed.
+
+(* ======================================================================== *)
+(* Stage 5: C12_eq_stage with the 'a'-header array form                        *)
+(* ======================================================================== *)
+(* For a "name#N" port the two lists get_changed_values compares are ARRAYS: slot 0 is the
+   header (type 'a', element type, number of slots), the elements follow.  By C16's theorem
+   (the Arr node): equal iff the element types are of one class (T and F form one) and the
+   elements compare equal one by one ([same_value], C's == on floats).  No NaN
+   ([value_comparable]) as in C12_eq_stage. *)
+Theorem C12_eq_stage_array : forall F hu hw u w, value_comparable u -> value_comparable w ->
+  AvModel.vals_eq F (enc_array hu u) (enc_array hw w) (Zlength (enc_array hu u)) (Zlength (enc_array hw w))
+    = Some ((AvModel.arr_class hu =? AvModel.arr_class hw) && same_value u w) /\
+  av_eq_array F hu hw u w = ((AvModel.arr_class hu =? AvModel.arr_class hw) && same_value u w).
+Proof. exact eq_stage_array. Qed.
+
+(* so with element types of one class the header form gives the answer of the element-sequence
+   form the pipeline theorems use *)
+Theorem C12_eq_stage_array_same : forall F hu hw u w,
+  AvModel.arr_class hu = AvModel.arr_class hw -> value_comparable u -> value_comparable w ->
+  av_eq_array F hu hw u w = av_eq_real F u w.
+Proof. exact eq_stage_array_same. Qed.
+
+Theorem C12_eq_stage_array_nonvacuous : forall F,
+  av_eq_array F 105 105 [VI 1; VI 5; VI 1] [VI 1; VI 1; VI 1] = false /\
+  av_eq_array F 105 105 [VI 1; VI 5; VI 1] [VI 1; VI 5; VI 1] = true /\
+  av_eq_array F 84 70 [VT true; VT false] [VT true; VT false] = true /\
+  av_eq_array F 105 102 [] [] = false.
+Proof. exact eq_stage_array_nonvacuous. Qed.
+
+(* ======================================================================== *)
+(* Stage 5: the walk stage instantiated (C09)                                  *)
+(* ======================================================================== *)
+(* walk_ports over the names of the tree, no runtime object: the walker is called with
+   exactly the element addresses of app_of_tree, port by port in the application's order,
+   every element once (C09_enumerates; the model expands "name#N" leaves, the save walk asks
+   for one report per port and expands the elements itself). *)
+Theorem C12_walk_addresses : forall t,
+  names_ok (sports_of t) = true ->
+  walk None (map render_port (sports_of t)) [] =
+  WOk (flat_map (fun fp => map (fun k => (f_id (fst fp), elem_addr (snd fp) k)) (seq 0 (p_len (snd fp))))
+                (combine (flat_root t) (app_of_tree t))) [47].
+Proof. exact walk_addresses. Qed.
+
+(* with the runtime object of a state [st] - the oracle C09's model asks: a pointer
+   sub-tree is NULL while its switch is off, an 'enabled by' toggle answers the state's
+   value - the walker is called for exactly the live ports (C09_pruning_enumerated, put
+   together for the whole tree: walk_pruned_wf) *)
+Theorem C12_walk_live_reports : forall t st,
+  names_ok (sports_of t) = true -> NoDup (map dir_addr (dirs_root t)) ->
+  walk (Some (oracle_of (app_of_tree t) (dirs_root t) st)) (map render_port (sports_of t)) [] =
+  WOk (flat_map (live_reports (app_of_tree t) st) (flat_root t)) [47].
+Proof. exact walk_live_reports. Qed.
+
+(* the former premise "C09": the ports the walk reaches are the live ports, in order.
+   Side conditions: distinct sub-tree addresses, distinct element addresses, no empty array. *)
+Theorem C12_walk_stage : forall t st,
+  let a := app_of_tree t in
+  names_ok (sports_of t) = true -> NoDup (map dir_addr (dirs_root t)) ->
+  NoDup (app_addresses a) -> (forall i, (i < length a)%nat -> (0 < p_len (port_at a i))%nat) ->
+  walk_tree t st = filter (live a st) (seq 0 (length a)).
+Proof. exact walk_stage. Qed.
+
+(* C12_roundtrip through the pipeline with the walk, the value comparison, the sort and the
+   dispatch instantiated by the models of the code (C09, C16, C13, C04 + C14).  _partial:
+   the one stage still assumed is print/scan (C10: [print_scan_hypothesis]); beside it
+   [full_conditions] (well-formed application, state of the right shape, saved values
+   stable), [comparable] (no NaN), [cstrings], [declared] (decidable), an acyclic
+   dependency scan, and the decidable conditions on the tree: names_ok, tree_ok (C04's),
+   pt_wf, distinct sub-tree and element addresses. *)
+Theorem C12_roundtrip_pipeline_tree_walk_partial :
+  forall text print_lines scan_text hp tid (t : list pt) apropos fuel F st ps,
+    let a := app_of_tree t in
+    names_ok (sports_of t) = true -> tree_ok (to_tree hp tid (sports_of t)) -> Forall pt_wf t ->
+    NoDup (map dir_addr (dirs_root t)) -> NoDup (app_addresses a) ->
+    print_scan_hypothesis text print_lines scan_text ->
+    full_conditions a st -> comparable a st -> cstrings st ->
+    declared a apropos ->
+    pushes line apropos fuel (msgs (save_lines a st)) = Some ps -> ranked ps ->
+    exists fin,
+      real_load text scan_text (fun _ l s => tree_apply_line hp tid t l s)
+                (fun _ ls => sort_by_load_order apropos fuel ls) a
+                (real_save text (fun _ s => walk_tree t s) (av_eq_real F) print_lines a st) (initial a)
+      = Some (Z.of_nat (length (save_lines a st)), fin) /\
+      forall q, (q < length a)%nat -> p_nodef (port_at a q) = false -> live a st q = true ->
+                restored_val (port_at a q) (val_at st q) (val_at fin q).
+Proof. exact roundtrip_pipeline_tree_walk. Qed.
+
+Theorem C12_pipeline_tree_walk_nonvacuous :
+  NoDup (map dir_addr (dirs_root fx_tree)) /\ NoDup (app_addresses (app_of_tree fx_tree)) /\
+  walk_tree fx_tree fx_state = [0; 1; 2]%nat /\
+  walk_tree fx_tree (initial (app_of_tree fx_tree)) = [0; 2]%nat.
+Proof. exact pipeline_tree_walk_nonvacuous. Qed.
+
+(* ======================================================================== *)
+(* Stage 5: the print/scan stage (C10)                                         *)
+(* ======================================================================== *)
+(* A savefile line is  address SP printed-values NL  - the text rtosc_print_message makes
+   (C10's print_message) and a line feed.  With range compression on (the default options)
+   and values in C10's goodc fragment, the checker and the scanner read the message back
+   ALSO WHEN MORE TEXT FOLLOWS the line feed - nothing, or the next message: the scanner
+   stops in front of the next '/' (C10's own theorems are about a text that ends with the
+   message).  The slots do not depend on what follows. *)
+Theorem C12_message_reads_tl : forall (dec2f dec2d : list Z -> Z) o addr vs text w,
+  PrintModel.compress o = true -> RunProofs.good_addr addr -> Forall ListProofs.goodc vs ->
+  Z.of_nat (length vs) < 2 ^ 31 ->
+  PrintModel.print_message o addr vs 0 = Some (text, w) ->
+  exists slots,
+    PrintModel.expand slots = Some vs /\ (exists sfx, text = addr ++ sfx) /\
+    forall tl, tail_ok tl ->
+    ScanModel.count_printed_arg_vals_of_msg dec2f dec2d (text ++ 10 :: tl)
+      = ScanModel.Ok (true, Z.of_nat (length slots)) /\
+    ScanModel.scan_message dec2f dec2d (text ++ 10 :: tl) (Z.of_nat (length slots))
+      = ScanModel.Ok (addr, slots, tl).
+Proof. exact message_reads_tl. Qed.
+
+(* a scalar line of the file with goodc values (int, char, T/F, strings and quoted symbols
+   without '.') reads back: the loader's line is the saved line *)
+Theorem C12_goodc_line_reads : forall (dec2f dec2d : list Z -> Z) o l t w,
+  PrintModel.compress o = true -> goodc_line l ->
+  PrintModel.print_message o (l_path l) (line_avs l) 0 = Some (t, w) -> line_reads dec2f dec2d o l.
+Proof. exact goodc_line_reads. Qed.
+
+(* lines do not interfere: if every line reads back whatever follows it, the first loop of
+   dispatch_printed_messages reads the body back line by line, each with the bytes it took *)
+Theorem C12_body_scans : forall (dec2f dec2d : list Z -> Z) o ls b,
+  Forall (line_reads dec2f dec2d o) ls -> print_body o ls = Some b ->
+  exists rds, length rds = length ls /\ Forall (fun rd => 0 <= rd) rds /\
+    forall fuel, (length ls < fuel)%nat ->
+      scan_body dec2f dec2d fuel b = map (fun lr => Msg (fst lr) (snd lr)) (combine ls rds).
+Proof. exact body_scans. Qed.
+
+(* C12_roundtrip with EVERY stage of the pipeline the model of the code that implements it:
+   walk_ports with the runtime object (C09), rtosc_arg_vals_eq (C16), rtosc_print_message and
+   the body loop (C10), scan_deps + Kahn (C13), Ports::dispatch and the macros' callbacks
+   (C04 + C14).  _partial - what remains:
+     * [full_conditions] (well-formed application, shape of the state, saved values stable),
+       [comparable] (no NaN), [cstrings] (no NUL in strings);
+     * [declared] (decidable, C13_declared_computed) and an acyclic dependency scan;
+     * decidable conditions on the tree: names_ok, C04's tree_ok, pt_wf, distinct sub-tree
+       and element addresses;
+     * per saved LINE: [line_reads] - proved for scalar lines with goodc values
+       (C12_goodc_line_reads); for lines with floats ("the float-text premise"), plain option
+       symbols and "[...]" array lines it is assumed. *)
+Theorem C12_roundtrip_tree_real_partial :
+  forall (dec2f dec2d : list Z -> Z) o hp tid (t : list pt) apropos fuel F st ps,
+    let a := app_of_tree t in
+    names_ok (sports_of t) = true -> tree_ok (to_tree hp tid (sports_of t)) -> Forall pt_wf t ->
+    NoDup (map dir_addr (dirs_root t)) -> NoDup (app_addresses a) ->
+    full_conditions a st -> comparable a st -> cstrings st ->
+    declared a apropos ->
+    pushes line apropos fuel (msgs (save_lines a st)) = Some ps -> ranked ps ->
+    Forall (line_reads dec2f dec2d o) (save_lines a st) ->
+    exists fin,
+      real_load (option (list Z)) (scan_text_real dec2f dec2d) (fun _ l s => tree_apply_line hp tid t l s)
+                (fun _ ls => sort_by_load_order apropos fuel ls) a
+                (real_save (option (list Z)) (fun _ s => walk_tree t s) (av_eq_real F) (print_body o) a st)
+                (initial a)
+      = Some (Z.of_nat (length (save_lines a st)), fin) /\
+      forall q, (q < length a)%nat -> p_nodef (port_at a q) = false -> live a st q = true ->
+                restored_val (port_at a q) (val_at st q) (val_at fin q).
+Proof. exact roundtrip_tree_real. Qed.
+
+(* the tree of C12_pipeline_tree_nonvacuous with the switch on and /s/x = 9: all premises
+   hold, the body is "/e true\n/s/x 9\n", both lines read back *)
+Theorem C12_roundtrip_tree_real_nonvacuous : forall (dec2f dec2d : list Z -> Z),
+  let a := app_of_tree fx_tree in
+  full_conditions a fx_state2 /\ comparable a fx_state2 /\ cstrings fx_state2 /\
+  declared a apropos_fx /\
+  (exists ps, pushes line apropos_fx 20 (msgs (save_lines a fx_state2)) = Some ps /\ ranked ps) /\
+  print_body opts_default (save_lines a fx_state2)
+    = Some [47; 101; 32; 116; 114; 117; 101; 10;  47; 115; 47; 120; 32; 57; 10] /\
+  Forall (line_reads dec2f dec2d opts_default) (save_lines a fx_state2).
+Proof. exact roundtrip_tree_real_nonvacuous. Qed.
